@@ -795,7 +795,7 @@ func anchorTupleFolded(c *Ctx, typ string, old []string, f *types.Var, why strin
 // slot would later be released into the new stream.
 func c14RestartClears(c *Ctx, rule string) {
 	p, r := c.P, c.R
-	r.Rule(rule, "on the edge where the receiver's consecutive-late counter trips (sender restart), every slot of the reorder ring is emptied before the function returns (a counting loop over len(buffer) slots storing nil, clear(buffer), or a fresh buffer): a packet of the old stream left behind would be released into the new one", 1)
+	r.Rule(rule, "on the edge where the receiver's consecutive-late counter trips (sender restart), the code that handles the restart empties the reorder ring (a loop storing nil into its slots, directly or in a helper; clear(buffer); or a fresh buffer): a packet of the old stream left behind would be released into the new one. Not decided: that every path of that code runs the loop", 1)
 	st, ok := p.Named("pkg/rtpreceiver", "Receiver").Underlying().(*types.Struct)
 	if !ok {
 		return
@@ -881,26 +881,60 @@ func c14RestartClears(c *Ctx, rule string) {
 				}
 				return false
 			}
-			// a counting loop may look skippable to a path query: passing its condition block counts as running it
-			loopHeads := map[*ssa.BasicBlock]bool{}
-			for _, b := range fn.Blocks {
-				for _, in := range b.Instrs {
-					if y, ok := in.(*ssa.Store); ok {
-						if ia, ok := y.Addr.(*ssa.IndexAddr); ok && isNilConst(y.Val) && strings.HasSuffix(core.PathOf(ia.X), "."+bufF.Name()) {
-							if hb := fullRingLoop(y, ia, bufF); hb != nil {
-								loopHeads[hb] = true
+			// a clearing construct in the region the restart edge dominates: a nil store into a slot inside a loop
+			// (directly or in a helper of the package called from that region), clear(buffer), or a fresh buffer.
+			// What is not decided: that every path of the region runs it (a return placed before the loop).
+			inCycle := func(b *ssa.BasicBlock) bool {
+				seen := map[*ssa.BasicBlock]bool{}
+				q := append([]*ssa.BasicBlock{}, b.Succs...)
+				for len(q) > 0 {
+					x := q[0]
+					q = q[1:]
+					if x == b {
+						return true
+					}
+					if seen[x] {
+						continue
+					}
+					seen[x] = true
+					q = append(q, x.Succs...)
+				}
+				return false
+			}
+			var clearsIn func(g *ssa.Function, from *ssa.BasicBlock, depth int) bool
+			clearsIn = func(g *ssa.Function, from *ssa.BasicBlock, depth int) bool {
+				for _, b := range g.Blocks {
+					if from != nil && !from.Dominates(b) {
+						continue
+					}
+					for _, in := range b.Instrs {
+						if discards(in) {
+							return true
+						}
+						if y, ok := in.(*ssa.Store); ok {
+							if ia, ok := y.Addr.(*ssa.IndexAddr); ok && isNilConst(y.Val) && strings.HasSuffix(core.PathOf(ia.X), "."+bufF.Name()) && inCycle(b) {
+								if _, isConst := ia.Index.(*ssa.Const); !isConst {
+									return true
+								}
+							}
+						}
+						if cl, ok := in.(*ssa.Call); ok && depth < 2 {
+							if cal := cl.Call.StaticCallee(); cal != nil && cal.Pkg == fn.Pkg && len(cal.Blocks) > 0 && cal != g {
+								if clearsIn(cal, nil, depth+1) {
+									return true
+								}
 							}
 						}
 					}
 				}
+				return false
 			}
-			discards0 := discards
-			discards = func(x ssa.Instruction) bool { return loopHeads[x.Block()] || discards0(x) }
-			miss, path, _ := core.PathAvoiding(fn, zs, core.IsReturn, discards)
+			miss := !clearsIn(fn, zs.Block(), 0)
+			var path []int
 			if miss {
-				r.FailPath(rule, construct, p.Pos(zs.Pos()), "the restart is acknowledged and the function returns without emptying the ring: packets of the old stream stay in their slots and are later released into the new stream", core.BlockPath(p, fn, path))
+				r.FailPath(rule, construct, p.Pos(zs.Pos()), "the restart is acknowledged but nothing in the code that handles it empties the ring: packets of the old stream stay in their slots and are later released into the new stream", core.BlockPath(p, fn, path))
 			} else {
-				r.OK(rule, construct, p.Pos(zs.Pos()), "every path from the restart to the return empties the whole ring")
+				r.OK(rule, construct, p.Pos(zs.Pos()), "the restart handling contains a loop that empties the slots (or clear / a fresh buffer)")
 			}
 		}
 	}
